@@ -178,6 +178,17 @@ fn one_shape(rep: &mut Rep, rng: &mut Rng, w: u8, h: u8, dc: u8, counts: &[u8], 
         };
         let k: [u8; 40] = rng.arr();
         let creplay = || format!("challenge {} {} {} {} {} {}", w, h, dc, count, seed, hex(&k));
+        if cells < 255 && rng.chance(1, 60) {
+            // a sibling call with more challenges than the card has cells fails first on this thread (whatever it does - it
+            // panics on the reference tree - is not judged: such a challenge is outside the property); nothing may stay behind
+            let over = (cells + 1 + rng.below(3) as usize).min(255) as u8;
+            let _ = guard(|| {
+                let mut v = MatrixCardVerifier::new(over, h, seed ^ 0x55, w, &k);
+                v.get_matrix_coordinates(0)
+            });
+            let _ = guard(|| verify_matrix_card_hash(&card, over, seed ^ 0x55, &k, &[0u8; 20]));
+            rep.count("contained_failing_sibling_challenges", 1);
+        }
         let mut v = match guard(|| MatrixCardVerifier::new(count, h, seed, w, &k)) {
             Ok(v) => v,
             Err(e) => {
@@ -224,6 +235,57 @@ fn one_shape(rep: &mut Rep, rng: &mut Rng, w: u8, h: u8, dc: u8, counts: &[u8], 
             }
             if bad {
                 break;
+            }
+        }
+        if bad {
+            continue;
+        }
+        // the rounds asked again on the same object in another order (a client that previews all cells and then walks through
+        // them again), and the same challenge built on a fresh thread (the server's side of the same login): same cells
+        {
+            let mut order: Vec<u8> = (0..count).rev().collect();
+            for _ in 0..count.min(12) {
+                order.push(rng.below(count as u64) as u8);
+            }
+            for r in order {
+                rep.ev(1);
+                match guard(|| v.get_matrix_coordinates(r)) {
+                    Ok(c) if c == Some(coords[r as usize]) => {}
+                    Ok(c) => {
+                        rep.violation("c18:coordinates_change_when_asked_again", format!("round {} gave {:?} when first asked and {:?} when asked again after later rounds", r, coords[r as usize], c), creplay());
+                        bad = true;
+                        break;
+                    }
+                    Err(e) => {
+                        rep.violation("c18:panic:coordinates:asked_again", e, creplay());
+                        bad = true;
+                        break;
+                    }
+                }
+            }
+            rep.count("rounds_asked_again_out_of_order", count as u64);
+            if !bad && rng.chance(1, 4) {
+                let kk = k;
+                let other: Result<Vec<Option<(u8, u8)>>, String> = std::thread::scope(|sc| {
+                    sc.spawn(move || guard(|| {
+                        let mut v2 = MatrixCardVerifier::new(count, h, seed, w, &kk);
+                        (0..count).map(|r| v2.get_matrix_coordinates(r)).collect::<Vec<_>>()
+                    }))
+                    .join()
+                    .unwrap_or_else(|_| Err("thread died".to_string()))
+                });
+                rep.count("challenges_rebuilt_on_a_fresh_thread", 1);
+                match other {
+                    Ok(o) if o.iter().map(|c| c.unwrap_or((255, 255))).collect::<Vec<_>>() == coords => {}
+                    Ok(o) => {
+                        rep.violation("c18:coordinates_differ_between_threads", format!("the same challenge (seed, count, card geometry) gives {:?} on this thread and {:?} on a fresh thread", &coords[..coords.len().min(4)], &o[..o.len().min(4)]), creplay());
+                        bad = true;
+                    }
+                    Err(e) => {
+                        rep.violation("c18:panic:coordinates:fresh_thread", e, creplay());
+                        bad = true;
+                    }
+                }
             }
         }
         if bad {
